@@ -82,7 +82,13 @@ func (w *world) one(k kase, r *engine.Report) (string, string) {
 			return &types.NodeInformation{Id: w.ecKeyId, CertificatePublicKeyPkix: w.ecPkix, CertificatePublicKeyType: types.KEYTYPE_ED25519, NodeId: nodeId}
 		}
 		key := w.keys["K"+rn[1:]]
-		return &types.NodeInformation{Id: key.KeyId, CertificatePublicKeyPkix: key.Pkix, CertificatePublicKeyType: types.KEYTYPE_ED25519, NodeId: nodeId}
+		ni := &types.NodeInformation{Id: key.KeyId, CertificatePublicKeyPkix: key.Pkix, CertificatePublicKeyType: types.KEYTYPE_ED25519, NodeId: nodeId}
+		if rn == "R1" {
+			// R1 is the product of a rotation: it names the key it replaced (U),
+			// whose own record is gone - a signature by U verifies against nothing
+			ni.PreviousCertificatePublicKeyPkix = w.keys["U"].Pkix
+		}
+		return ni
 	}
 	for _, rn := range k.List {
 		ni := record(rn, "node-X")
@@ -178,6 +184,7 @@ func (w *world) one(k kase, r *engine.Report) (string, string) {
 	var resp *types.GenerateServerCertificatesResponse
 	var err error
 	panicked := ""
+	sent := proto.Clone(req).(*types.GenerateServerCertificatesRequest)
 	func() {
 		defer func() {
 			if p := recover(); p != nil {
@@ -186,6 +193,12 @@ func (w *world) one(k kase, r *engine.Report) (string, string) {
 		}()
 		resp, err = nodetls.GenerateServerCertificates(harness.Ctx, storage, req)
 	}()
+	// the verdict of one call lives in that call: the caller's request object
+	// (which a chained generate function hands on, or a retry re-submits) is
+	// left as it was
+	if panicked == "" && !proto.Equal(req, sent) {
+		return "request-modified", fmt.Sprintf("path=%s records=%v claimed=%s nonce=%s state=%s skip=%v: GenerateServerCertificates changed the request it was given (skip_verification now %v)", k.Path, k.List, k.Claimed, k.Nonce, k.State, k.Skip, req.SkipVerification)
+	}
 	desc := fmt.Sprintf("path=%s records-under-node-id=%v claimed=%s nonce-signed-by=%s state=%s skip=%v", k.Path, k.List, k.Claimed, k.Nonce, k.State, k.Skip)
 	if panicked != "" {
 		return "panic", desc + ": GenerateServerCertificates panicked: " + panicked
